@@ -19,7 +19,7 @@ SPEC = dict(
     exhaustive={'thorough': 'all 2^31-1 code points (encode, decode, every proper prefix, trailing bytes); all 1- and 2-byte strings; '
                             'all 256 lead bytes x all strings of 0..5 class representatives (lengths 1..6)',
                 'quick': None},
-    require=['giant-stated-length-decode', 'utf_catc-into-tight-string', 'encode-zero-has-length-0', 'encode-length-vs-table', 'encode-null-buffer-length', 'encode-bytes-vs-table',
+    require=['length-of-long-run-at-unaligned-start', 'length-of-run-followed-by-live-ascii', 'giant-stated-length-decode', 'utf_catc-into-tight-string', 'encode-zero-has-length-0', 'encode-length-vs-table', 'encode-null-buffer-length', 'encode-bytes-vs-table',
              'roundtrip-decode-length-and-value', 'proper-prefix-rejected', 'roundtrip-with-trailing-bytes', 'decode-result-cell-overlapping-the-input',
              'decode-val-and-null-variants-agree', 'decode-length-within-num-and-6', 'decode-trailing-bytes-are-continuation',
              'decode-leading-nul-returns-0', 'length-equals-decode-fold', 'length-stop-equals-decode-fold',
